@@ -131,17 +131,36 @@ func (w *World) concPhase(r *rand.Rand, sid int, mut []string, readers [][]strin
 		}
 		sched.yield()
 	}
-	gkvlite.VerifEventFn = func(kind int, _ uintptr) {
+	// which collection a version belongs to (C05: Flush captures the collections "in collection-name
+	// order"): the versions current when the phase begins, then every version the mutator publishes
+	// while it executes an operation on a known collection
+	verName := map[uintptr]string{}
+	for _, n := range st.GetCollectionNames() {
+		verName[gkvlite.VerifRoot(st.GetCollection(n)).Addr] = n
+	}
+	curMutName := ""
+	swaps := false
+	for _, l := range mut {
+		if strings.HasPrefix(l, "setcoll ") || strings.HasPrefix(l, "rmcoll ") {
+			swaps = true // the repaired Flush may start its pins over: the pin sequence is not one pass
+		}
+	}
+	var flushPinNames []string
+	gkvlite.VerifEventFn = func(kind int, ver uintptr) {
 		mu.Lock()
 		defer mu.Unlock()
 		switch kind {
 		case gkvlite.VerifEvPublish:
 			if sched.active && sched.cur == 0 { // only the mutator publishes versions of this store
 				casCount++
+				verName[ver] = curMutName
 			}
 		case gkvlite.VerifEvPin:
 			if sched.active {
 				pinOf[sched.cur] = append(pinOf[sched.cur], casCount)
+				if sched.cur == 1 {
+					flushPinNames = append(flushPinNames, verName[ver])
+				}
 			}
 		}
 	}
@@ -172,7 +191,23 @@ func (w *World) concPhase(r *rand.Rand, sid int, mut []string, readers [][]strin
 	// worker 0: the mutator
 	bodies = append(bodies, func() {
 		for _, l := range mut {
+			mu.Lock()
+			before := casCount
+			if f := strings.Fields(l); len(f) > 2 {
+				nb, _ := unhx(f[2])
+				curMutName = string(nb)
+			}
+			mu.Unlock()
 			o := w.execSafe(strings.Fields(l))
+			if strings.HasPrefix(l, "setcoll ") && o == "ok" {
+				// SetCollection on an existing name publishes no new root (same items, new handle); the
+				// model counts every successful mutator step as a version, so count it here too
+				mu.Lock()
+				if casCount == before {
+					casCount++
+				}
+				mu.Unlock()
+			}
 			cm = append(cm, concRec{"cm " + l, o})
 		}
 	})
@@ -181,8 +216,17 @@ func (w *World) concPhase(r *rand.Rand, sid int, mut []string, readers [][]strin
 		for i := 0; i < nFlush; i++ {
 			mu.Lock()
 			pinOf[1] = nil
+			flushPinNames = nil
 			mu.Unlock()
-			err := st.Flush()
+			var err error
+			func() {
+				defer func() {
+					if r := recover(); r != nil {
+						err = fmt.Errorf("panic:%v", r)
+					}
+				}()
+				err = st.Flush()
+			}()
 			mu.Lock()
 			ks := append([]int(nil), pinOf[1]...)
 			mu.Unlock()
@@ -191,9 +235,23 @@ func (w *World) concPhase(r *rand.Rand, sid int, mut []string, readers [][]strin
 				kstr = append(kstr, fmt.Sprint(k))
 			}
 			obs := errClass(err)
+			if err != nil && strings.HasPrefix(err.Error(), "panic:") {
+				obs = "panic:Flush"
+			}
 			if err == nil && mf != nil {
 				obs = openDigest(w, mf.Bytes())
 			}
+			mu.Lock()
+			// Flush's own pins come first, one per collection; later pins of the same call
+			// (MarshalJSON of each root while the root record is written) are not the capture
+			first := flushPinNames
+			if nc := len(st.GetCollectionNames()); len(first) > nc {
+				first = first[:nc]
+			}
+			if !swaps && !sort.StringsAreSorted(first) {
+				obs = "bad:flush-pins-not-in-name-order " + hx([]byte(strings.Join(first, ",")))
+			}
+			mu.Unlock()
 			cf = append(cf, concRec{fmt.Sprintf("cf %d %s", sid, strings.Join(kstr, ",")), obs})
 			sched.yield()
 		}
@@ -463,6 +521,22 @@ func cmdC05(args []string) {
 				readers = append(readers, p)
 			}
 			extra["race_histories"]++
+		}
+		// handle-swap histories: the mutator re-issues SetCollection on existing names (the documented
+		// way to install a comparator) while the flusher runs; no readers, because a reader that holds
+		// the replaced handle is the application's own misuse (DESIGN.md section 10)
+		if !mem && !drain && !race && len(names) >= 2 && r.Intn(5) == 0 {
+			readers = nil
+			nFlush = 6 + r.Intn(8) // a Flush of clean trees is short: many of them, so that some overlap the swaps
+			var m2 []string
+			for _, l := range mut {
+				m2 = append(m2, l)
+				if r.Intn(2) == 0 {
+					m2 = append(m2, "setcoll 1 "+hx([]byte(names[r.Intn(len(names))])))
+				}
+			}
+			mut = append(m2, "setcoll 1 "+hx([]byte(names[len(names)-1])))
+			extra["handle_swap_histories"]++
 		}
 		recs, ok, steps := w.concPhase(r, 1, mut, readers, nFlush)
 		extra["sched_steps"] += steps
